@@ -537,7 +537,9 @@ func formatPadWidth(verb *formatVerb, fmted string) string {
 
 	padLen := wantLen - givenLen
 	padChar := " "
-	if verb.Zero {
+	if verb.Zero && !verb.Minus {
+		// Zeros are only ever padded on the left: padding a number with
+		// zeros on the right would change its value.
 		padChar = "0"
 	}
 	pads := strings.Repeat(padChar, padLen)
